@@ -68,11 +68,27 @@ fn obs_all_digest<E: elf::endian::EndianParse>(
     k.u8(tag as u8);
     note(&mut res, 0, tag);
     if let Some(eb) = eb {
-        for (i, o) in ops.iter().enumerate() {
-            alloc::slice_begin();
-            let tag = slice_op(&ctx, &eb, &o.op, &mut k);
-            k.u8(tag as u8);
-            note(&mut res, i + 1, tag);
+        // the same handle answers the whole query set twice, then a run of by-name
+        // lookups: anything built lazily on the n-th use of a handle is met here
+        for _pass in 0..2 {
+            for (i, o) in ops.iter().enumerate() {
+                alloc::slice_begin();
+                let tag = slice_op(&ctx, &eb, &o.op, &mut k);
+                k.u8(tag as u8);
+                note(&mut res, i + 1, tag);
+            }
+        }
+        let by_name: Vec<usize> = (0..ops.len())
+            .filter(|i| matches!(ops[*i].op, crate::ops::Op::ByName(_)))
+            .collect();
+        if !by_name.is_empty() {
+            for j in 0..24 {
+                let i = by_name[j % by_name.len()];
+                alloc::slice_begin();
+                let tag = slice_op(&ctx, &eb, &ops[i].op, &mut k);
+                k.u8(tag as u8);
+                note(&mut res, i + 1, tag);
+            }
         }
     }
     res.digest = k.0;
